@@ -3,7 +3,7 @@
 # Usage: ./seed_regress.sh [seed-id ...]   (no other use of /repo while this runs)
 cd "$(dirname "$0")"
 git -C /repo diff --quiet || { echo "/repo is not clean"; exit 2; }
-ids="$@"; [ -z "$ids" ] && ids=$(ls seeded)
+ids="$@"; [ -z "$ids" ] && ids=$(ls -d seeded/*/ | xargs -n1 basename)
 for id in $ids; do
   d=seeded/$id
   p=$(python3 -c "import json;print(json.load(open('$d/meta.json'))['property'])")
